@@ -54,6 +54,9 @@ class FoldConstants(SuiteTransformer):
             return node
         elif isinstance(original_value, bool):
             new_node = ast.NameConstant(value=original_value)
+        elif isinstance(original_value, complex) and any(math.isinf(part) or math.isnan(part) for part in (original_value.real, original_value.imag)):
+            # There is no literal for a complex number with an infinite or nan part, its repr() spells names (inf, nan, infj, nanj)
+            return node
         elif isinstance(original_value, (int, float, complex)):
             try:
                 if repr(original_value).startswith('-') and not sys.version_info < (3, 0):
